@@ -70,8 +70,8 @@ CLAIMED = {
    technique="symbolic execution of the training code with exact-real definitions of the LAPACK calls + polynomial normal form / z3 identities on the solved weights; replay on the unmodified code with scipy",
    design="4/C16"),
  "C10": dict(
-   text="Part A (every place where the team size enters the arithmetic explicitly: the block partitions of the six SDMXcontract_ao_to_bas* routines and of contract_grad_terms_parallel): the partition expressions are extracted from /repo's current C source text and translated to z3 integer terms; for all team sizes 1 <= T <= 4096 and all problem sizes 0 <= ngrids <= 2^31-1-4096 (incl. ngrids < T and T not dividing ngrids) z3 decides that every index is covered by some thread's block, no index by two, every block lies in [0, ngrids), per-thread scratch (malloc(blksize), tmp_priv + ithread*natm of calloc(nthreads*natm)) is large enough and thread-disjoint, the C division operands are non-negative and no int expression exceeds INT_MAX. Part B (schedule independence of work-shared loops, bounded): clang's -fopenmp LLVM IR of cider_coefs.c (cider_coefs_gto_gq/qg, cider_coefs_vk1_gq/qg, cider_coefs_spline_gq/qg, cider_ind_etb/zexp, smooth_cider_exponents), model_utils.c (evaluate_se_kernel, _antisym, _spin, _spin_v2), cider_grids.c (reduce_angc_to_ylm / reduce_ylm_to_angc), convolutions.c (contract_rad_to_orb / contract_orb_to_rad, multiply_atc_integrals, multiply_atc_integrals_vk) and cider_fft.c (write_fft_input / read_fft_output) is executed through the same harnesses as C05/C11/C20 with the __kmpc_* runtime modelled so that virtual thread k receives exactly iteration k of every work-shared loop (static and dynamic schedules alike); all loads and stores are logged per barrier phase and no byte is touched by two iterations with a write outside critical/reduction sections - which is race freedom for every schedule and team size at these sizes - while the value/gradient/adjoint identities of the reused harness are decided again on the OpenMP lowering.",
-   note="Part B is bounded by the harness sizes (loops of <= 8 iterations, one virtual thread per iteration) and covers only the routines listed; loops of conv_interpolation.c, fast_sdmx.c, frac_lapl.c, nr_numint.c, pbc_tools.c, MKL/MPI branches, BLAS reproducibility and end-to-end runs under different OMP_NUM_THREADS are outside; reassociation inside reductions is allowed by the property; stores that rewrite the value already present (multiply_atc_integrals' `fwd`) are reported as notes, not races; a footprint conflict is confirmed on the compiled library under valgrind helgrind before it is reported.",
+   text="Part A (every place where the team size enters the arithmetic explicitly: the block partitions of the six SDMXcontract_ao_to_bas* routines and of contract_grad_terms_parallel): the partition expressions are extracted from /repo's current C source text and translated to z3 integer terms; for all team sizes 1 <= T <= 4096 and all problem sizes 0 <= ngrids <= 2^31-1-4096 (incl. ngrids < T and T not dividing ngrids) z3 decides that every index is covered by some thread's block, no index by two, every block lies in [0, ngrids), per-thread scratch (malloc(blksize), tmp_priv + ithread*natm of calloc(nthreads*natm)) is large enough and thread-disjoint, the C division operands are non-negative and no int expression exceeds INT_MAX. Part B (schedule independence of work-shared loops, bounded): clang's -fopenmp LLVM IR of cider_coefs.c (cider_coefs_gto_gq/qg, cider_coefs_vk1_gq/qg, cider_coefs_spline_gq/qg, cider_ind_etb/zexp, smooth_cider_exponents), model_utils.c (evaluate_se_kernel, _antisym, _spin, _spin_v2), cider_grids.c (reduce_angc_to_ylm / reduce_ylm_to_angc), convolutions.c (contract_rad_to_orb / contract_orb_to_rad, multiply_atc_integrals, multiply_atc_integrals_vk), conv_interpolation.c (project_conv_to_spline / project_spline_to_conv) and cider_fft.c (write_fft_input / read_fft_output) is executed through the same harnesses as C05/C11/C20 with the __kmpc_* runtime modelled so that virtual thread k receives exactly iteration k of every work-shared loop (static and dynamic schedules alike); all loads and stores are logged per barrier phase and no byte is touched by two iterations with a write outside critical/reduction sections - which is race freedom for every schedule and team size at these sizes - while the value/gradient/adjoint identities of the reused harness are decided again on the OpenMP lowering.",
+   note="Part B is bounded by the harness sizes (loops of <= 8 iterations, one virtual thread per iteration) and covers only the routines listed; the other loops of conv_interpolation.c, fast_sdmx.c, frac_lapl.c, nr_numint.c, pbc_tools.c, MKL/MPI branches, BLAS reproducibility and end-to-end runs under different OMP_NUM_THREADS are outside; reassociation inside reductions is allowed by the property; stores that rewrite the value already present (multiply_atc_integrals' `fwd`) are reported as notes, not races; a footprint conflict is confirmed on the compiled library under valgrind helgrind before it is reported.",
    technique="translation of the C partition expressions (from the current source) to z3 integer arithmetic; symbolic execution of clang -fopenmp LLVM IR with a model of the __kmpc_* runtime and per-iteration access footprints; counterexamples replayed by compiling the same expressions with gcc / under valgrind helgrind",
    design="4/C10"),
  "C09": dict(
@@ -90,8 +90,8 @@ CLAIMED = {
    technique="symbolic execution of clang LLVM IR (own interpreter) via the repository's ctypes wrapper + z3; replay against the freshly compiled library",
    design="4/C02"),
  "C05": dict(
-   text="Serial semantics: clang's LLVM IR of the forward and of the backward C routine is executed on symbolic vectors with zero-initialised outputs and concrete layout data; the structs they read (atc_basis_set, convolution_collection) are built by the freshly compiled real library through ATCBasis / ConvolutionCollection(K) and read from process memory. z3 decides <A x, y> == <x, B y> as an exact bilinear identity for reduce_angc_to_ylm/reduce_ylm_to_angc (through dgemm_, stride > nalpha, offsets 0 and 1), contract_rad_to_orb/contract_orb_to_rad, multiply_atc_integrals and multiply_atc_integrals_vk (fwd/bwd), and for the Gaussian plan's interpolation-coefficient transform (fwd/bwd, in place and copy, symbolic SPD matrix); writes outside the [offset, offset+nalpha) window are shown impossible; the interpreter is validated against the compiled .so on concrete inputs.",
-   note="2 atoms, lmax 1, nalpha 2; NOT covered in this round (listed in evidence): spline projection, l+1 interpolation terms, orbital<->grid interpolation, SDMX contractions; thread count is C10.",
+   text="Serial semantics: clang's LLVM IR of the forward and of the backward C routine is executed on symbolic vectors with zero-initialised outputs and concrete layout data; the structs they read (atc_basis_set, convolution_collection) are built by the freshly compiled real library through ATCBasis / ConvolutionCollection(K) and read from process memory. z3 decides <A x, y> == <x, B y> as an exact bilinear identity for reduce_angc_to_ylm/reduce_ylm_to_angc (through dgemm_, stride > nalpha, offsets 0 and 1), contract_rad_to_orb/contract_orb_to_rad, project_conv_to_spline/project_spline_to_conv (orbital <-> cubic-spline coefficients, both column windows), multiply_atc_integrals and multiply_atc_integrals_vk (fwd/bwd), and for the Gaussian plan's interpolation-coefficient transform (fwd/bwd, in place and copy, symbolic SPD matrix); writes outside the [offset, offset+nalpha) window are shown impossible; the interpreter is validated against the compiled .so on concrete inputs.",
+   note="2 atoms, lmax 1, nalpha 2; NOT covered in this round (listed in evidence): l+1 interpolation terms (fill_l1_coeff, add_lp1_term), orbital<->grid interpolation, SDMX contractions; thread count is C10.",
    technique="symbolic execution of clang LLVM IR in hybrid memory mode (own interpreter) + z3 polynomial identity; translation validation against the compiled library",
    design="4/C05"),
  "C06": dict(
